@@ -593,6 +593,103 @@ Groups == <<
 
 GroupIdx == 1..Len(Groups)
 Known == UNION {Groups[g].fns : g \in GroupIdx}
+\* ---- memory layouts ---------------------------------------------------------------------------------
+\* templates with an out= / in-place target: the BASE buffer behind the target is observed afterwards
+TargetCls == {"copyto", "fill_diagonal", "put", "place", "putmask", "put_along", "nd.sort", "nd.fill", "nd.put", "nd.setitem"}
+OutTmplNames == {"out", "outpos", "outb", "outax", "nocopy"}
+HasTarget(cls, t) == cls \in TargetCls \/ t \in OutTmplNames
+\* layouts of a target: C-contiguous, F-ordered, every second element of a larger buffer (strided), reversed view,
+\* the memory of the first input (overlap); layouts of the inputs: C, F, strided, reversed, broadcast (stride 0)
+AllOutLays == {"C", "F", "S", "R", "O"}
+AllInLays == {"C", "F", "S", "R", "B"}
+
+\* ---- keyword completeness -----------------------------------------------------------------------------
+\* keyword -> non-default value classes (the meaning of mode= / order= is function-specific: harness/c06_templates.py);
+\* a keyword of NumPy's signature (inspect.signature, extracted from the installed NumPy) that is not in this table is
+\* exported as uncovered.  out= is covered by the out templates above.
+KwVal ==
+  "axis" :> {"0", "m1"} @@
+  "keepdims" :> {"T"} @@
+  "ddof" :> {"1"} @@
+  "correction" :> {"1"} @@
+  "kind" :> {"stable", "mergesort", "heapsort"} @@
+  "stable" :> {"T"} @@
+  "descending" :> {"T"} @@
+  "side" :> {"right"} @@
+  "dtype" :> {"f4", "f8"} @@
+  "casting" :> {"unsafe"} @@
+  "where" :> {"mask"} @@
+  "initial" :> {"2"} @@
+  "decimals" :> {"1", "m1"} @@
+  "k" :> {"1", "m1"} @@
+  "offset" :> {"1", "m1"} @@
+  "axis1" :> {"1"} @@
+  "axis2" :> {"0"} @@
+  "n" :> {"2", "5"} @@
+  "prepend" :> {"q"} @@
+  "append" :> {"q"} @@
+  "to_end" :> {"q"} @@
+  "to_begin" :> {"q"} @@
+  "num" :> {"5"} @@
+  "endpoint" :> {"F"} @@
+  "retstep" :> {"T"} @@
+  "base" :> {"2"} @@
+  "equal_nan" :> {"T"} @@
+  "rtol" :> {"big", "0"} @@
+  "atol" :> {"0"} @@
+  "assume_unique" :> {"T"} @@
+  "return_indices" :> {"T"} @@
+  "invert" :> {"T"} @@
+  "density" :> {"T"} @@
+  "bins" :> {"4"} @@
+  "full_matrices" :> {"F"} @@
+  "compute_uv" :> {"F"} @@
+  "hermitian" :> {"T"} @@
+  "UPLO" :> {"U"} @@
+  "rcond" :> {"half"} @@
+  "ord" :> {"1", "inf"} @@
+  "norm" :> {"ortho", "forward"} @@
+  "axes" :> {"0"} @@
+  "wrap" :> {"T"} @@
+  "left" :> {"9"} @@
+  "right" :> {"9"} @@
+  "period" :> {"p"} @@
+  "discont" :> {"1"} @@
+  "method" :> {"lower", "nearest"} @@
+  "dx" :> {"half"} @@
+  "optimize" :> {"T"} @@
+  "mode" :> {"alt1", "alt2"} @@
+  "order" :> {"F"} @@
+  "axisa" :> {"0"} @@
+  "axisb" :> {"0"} @@
+  "axisc" :> {"0"} @@
+  "default" :> {"7"} @@
+  "ind" :> {"1"} @@
+  "copy" :> {"F"} @@
+  "nan" :> {"v"} @@
+  "posinf" :> {"v"} @@
+  "neginf" :> {"v"} @@
+  "weights" :> {"w"} @@
+  "range" :> {"r"} @@
+  "stat_length" :> {"2"} @@
+  "constant_values" :> {"3"} @@
+  "end_values" :> {"e"} @@
+  "reflect_type" :> {"odd"} @@
+  "indexing" :> {"ij"} @@
+  "precision" :> {"2"} @@
+  "max_line_width" :> {"20"} @@
+  "fmt" :> {"e"} @@
+  "delimiter" :> {"c"}
+\* keywords exercised by hand-written templates of the function's class (clip kw/newkw, trapezoid xkw, fftn s/saxes,
+\* searchsorted sorter, cumulative_* incl)
+KwCoveredElsewhere == {"out", "a_min", "a_max", "min", "max", "x", "s", "sorter", "include_initial"}
+\* keywords NumPy documents but takes through **kwargs (invisible to inspect.signature)
+DocKw(fn) == IF fn = "np.pad" THEN {"stat_length", "constant_values", "end_values", "reflect_type"} ELSE {}
+\* data classes that make a keyword matter: few distinct values (ties, duplicates), NaNs
+DataClasses == {"plain", "ties", "nan"}
+\* base template of a class for keyword cases
+KwBase(g) == IF "pos" \in Groups[g].t THEN "pos" ELSE CHOOSE t \in Groups[g].t : TRUE
+
 \* ---- what C06 demands per class -----------------------------------------------------------------
 \* result values are unspecified (np.empty_like) or text that legitimately mentions the unit
 NoValueCls == {"empty", "text"}
@@ -607,8 +704,11 @@ RefuseFns == {"np.cumprod", "np.nancumprod", "np.cumulative_prod", "nd.cumprod"}
 \*   tgt, tknd : out= and in-place targets hold the same numbers / dtype kind afterwards
 \* C06: either raises or produces exactly NumPy's numbers (shape, dtype kind, values, in-place effect).
 \* Not demanded: anything when NumPy itself raises on the stripped data (there are no numbers to agree with).
+\* For calls with an out= / in-place target NumPy's refusal is a refusal: a call that returns where NumPy rejects the
+\* target cannot have written the caller's memory as NumPy does.
 C_Fails(c, o) ==
-  IF o.ur \/ o.br THEN {}
+  IF o.br /\ ~o.ur /\ c.tg THEN {"refusal"}
+  ELSE IF o.ur \/ o.br THEN {}
   ELSE (IF o.n THEN {} ELSE {"structure"})
        \cup (IF o.n /\ ~o.shp THEN {"shape"} ELSE {})
        \cup (IF o.n /\ ~o.knd THEN {"kind"} ELSE {})
@@ -628,5 +728,5 @@ OwnImpl(fn, fixes) ==
     [] OTHER -> fn
 C_T(c, o, fixes) ==
   /\ (c.cls \in RefuseCls \/ c.fn \in RefuseFns) => o.ur
-  /\ (~o.ur /\ c.kind \in {"handled", "default"} /\ OwnImpl(c.fn, fixes) # "") => OwnImpl(c.fn, fixes) \in {o.fwd[j] : j \in 1..Len(o.fwd)}
+  /\ (~o.ur /\ c.kw = "" /\ c.kind \in {"handled", "default"} /\ OwnImpl(c.fn, fixes) # "") => OwnImpl(c.fn, fixes) \in {o.fwd[j] : j \in 1..Len(o.fwd)}
 =============================================================================
